@@ -183,6 +183,14 @@ Theorem C18_names_are_list_elements :
 Proof. exact name_elem_reads. Qed.
 Print Assumptions C18_names_are_list_elements.
 
+Theorem C18_numbers_are_list_elements :
+  forall float_ok (a : byte) (w : list byte) d v,
+    (Nat.eqb a 45 || digit a) = true -> Forall (fun b => is_num b = true) (a :: w) ->
+    number_value float_ok (a :: w) = Some v ->
+    elem_reads float_ok (length w + 2) d (a :: w) v.
+Proof. exact number_elem_reads. Qed.
+Print Assumptions C18_numbers_are_list_elements.
+
 Theorem C18_lists_are_list_elements :
   forall float_ok m d e v es vs,
     elem_reads float_ok m (S d) e v -> Forall2 (elem_reads float_ok m (S d)) es vs -> S d <= max_nesting ->
